@@ -497,10 +497,11 @@ HandlePH(x, m, fuel) ==
          ELSE IF ~m.hashOK THEN [x EXCEPT !.res = "BadBlockHash"]
          ELSE IF m.sig # "ok" THEN [x EXCEPT !.res = "BadSignature"]
          ELSE IF H.pcpPkh # prevVS THEN [x EXCEPT !.res = "BadPrevCommitProofPubKeyHash"]
+         \* the header must extend the committing header (checkResp.PrevBlockHash)
+         ELSE IF ~isInit /\ H.prev # (IF chk.slot = "C" THEN HDR[x.k.ch].prev ELSE x.k.ch) THEN [x EXCEPT !.res = "BadPrevCommitVoteCount"]
          ELSE LET pc == IF isInit THEN "ok" ELSE PCPCheck(m.hdr, prevVS)
               IN IF pc = "PANIC" THEN Panic(x, "index out of range in MergeSparse (key id shorter than 2 bytes)")
                  ELSE IF pc # "ok" THEN [x EXCEPT !.res = pc]
-                 \* DEVIATION (C04): PrevBlockHash is never compared with the committing header
                  ELSE [AddPH(x, m) EXCEPT !.res = "Accepted"]
 
 -----------------------------------------------------------------------------
@@ -536,24 +537,26 @@ HandleReplay(x, m) ==
          ELSE
           LET addPH == ~HasPH(v, m.hdr)
               storedElsewhere == \E hr \in DOMAIN x1.st.round : hr[1] = H.h /\ \E p \in x1.st.round[hr].phs : p.hdr = m.hdr
-              x2 == IF addPH /\ storedElsewhere
-                      THEN Panic(x1, "TODO: handle internal error from handling replayed block")  \* SaveRoundReplayedHeader: OverwriteError
-                    ELSE IF addPH
-                      THEN \* SaveRoundReplayedHeader keys by height only
-                           W([x1 EXCEPT !.k.V.phs = @ \cup {[hdr |-> m.hdr, prop |-> 0]}],
-                             [x1.st EXCEPT !.replayed = (H.h :> (ReplayedAt(x1.st, H.h) \cup {m.hdr})) @@ @])
-                      ELSE x1
               mine == IF m.hdr \in DOMAIN tmp THEN tmp[m.hdr] ELSE {}
               powHdr == SumPow(hv, mine)                            \* powers by index over the header's set
-          IN IF ~OKx(x2) THEN x2
-             ELSE IF m.hdr \notin DOMAIN tmp THEN [x2 EXCEPT !.res = "Validation"]
-             ELSE IF powHdr < Maj(TotalPow(v.vs)) THEN [x2 EXCEPT !.res = "Validation"]
+          IN IF m.hdr \notin DOMAIN tmp THEN [x1 EXCEPT !.res = "Validation"]
+             ELSE IF powHdr < Maj(TotalPow(v.vs)) THEN [x1 EXCEPT !.res = "Validation"]
              ELSE
-              LET newpc == [t \in DOMAIN v.pc \cup DOMAIN tmp |-> IF t \in DOMAIN tmp THEN tmp[t] ELSE v.pc[t]]
-                  x3 == [x2 EXCEPT !.k.V.pc = newpc]
-                  rec == RoundOf(x3.st, H.h, m.r)
-                  x4 == W(x3, PutRound(x3.st, H.h, m.r, [rec EXCEPT !.pc = newpc, !.pcKH = v.vs]))
-              IN [CheckVotingPrecommitViewShift(x4) EXCEPT !.res = "nil"]
+              \* only an accepted replay puts its header into the voting view and the round store
+              LET x2 == IF addPH /\ storedElsewhere
+                          THEN Panic(x1, "TODO: handle internal error from handling replayed block")  \* SaveRoundReplayedHeader: OverwriteError
+                        ELSE IF addPH
+                          THEN \* SaveRoundReplayedHeader keys by height only
+                               W([x1 EXCEPT !.k.V.phs = @ \cup {[hdr |-> m.hdr, prop |-> 0]}],
+                                 [x1.st EXCEPT !.replayed = (H.h :> (ReplayedAt(x1.st, H.h) \cup {m.hdr})) @@ @])
+                          ELSE x1
+              IN IF ~OKx(x2) THEN x2
+                 ELSE
+                  LET newpc == [t \in DOMAIN v.pc \cup DOMAIN tmp |-> IF t \in DOMAIN tmp THEN tmp[t] ELSE v.pc[t]]
+                      x3 == [x2 EXCEPT !.k.V.pc = newpc]
+                      rec == RoundOf(x3.st, H.h, m.r)
+                      x4 == W(x3, PutRound(x3.st, H.h, m.r, [rec EXCEPT !.pc = newpc, !.pcKH = v.vs]))
+                  IN [CheckVotingPrecommitViewShift(x4) EXCEPT !.res = "nil"]
 
 -----------------------------------------------------------------------------
 (* ---- state machine link [handleStateMachineRoundEntrance / Action] ------- *)
